@@ -212,6 +212,11 @@ func decodeCemiX(data []byte, scrib bool) decOut {
 
 // ---- C01 ----
 
+// quietLog is a log target that formats like a real one and keeps nothing
+type quietLog struct{}
+
+func (quietLog) Printf(format string, args ...interface{}) { _ = fmt.Sprintf(format, args...) }
+
 func (r *run) c01Input(kind string, vis []byte, seed uint32) {
 	if len(vis) > 1024 {
 		vis = vis[:1024]
@@ -220,14 +225,20 @@ func (r *run) c01Input(kind string, vis []byte, seed uint32) {
 	var outs []decOut
 	key := kind + ":" + ktext.Hex(vis)
 	r.distinct[key] = true
-	for _, t := range tails {
+	for ti, t := range tails {
 		data := withTail(vis, t)
 		var d decOut
+		// the third decode of every input runs with a log target installed, as an application that
+		// follows the README has one: what the decoders say about a malformed frame is then formatted
+		if ti == 2 {
+			util.Logger = quietLog{}
+		}
 		if kind == "dec" {
 			d = decodeServiceX(data, true)
 		} else {
 			d = decodeCemiX(data, true)
 		}
+		util.Logger = nil
 		op := kind + " " + ktext.Hex(vis) + " " + t.String()
 		r.emit(op, d.String())
 		outs = append(outs, d)
@@ -1058,6 +1069,38 @@ func (r *run) c11(g *gen.G, budget int) {
 		}
 		m, lp := mk(p, l)
 		r.c11Frame(m, lp)
+	}
+	// decoding "from any such layout": every value of the transport-control octet in a hand-made
+	// L_Data.ind, control units and data units, also the layouts the encoder never produces (sequence
+	// bits in an unnumbered unit): the decoder extracts the four bits whatever the numbered flag says
+	{
+		seed := uint32(g.R.Int31())
+		// what the specification's layout says the frame holds, written as arithmetic on the octets
+		expect := func(frame []byte, unit cemi.TransportUnit) {
+			want := ktext.Join(ktext.Cemi(&cemi.LDataInd{LData: cemi.LData{Control1: 0xbc, Control2: 0xe0, Source: 0x1101, Destination: 0x0902, Data: unit}}))
+			d := decodeCemiX(frame, true)
+			if got := ktext.Join(d.toks); d.class != "ok" || got != want {
+				r.violation("decoded-fields-differ-from-layout", "decc "+ktext.Hex(frame), "the layout holds "+want+"; decoded "+d.class+" "+got)
+			}
+		}
+		for tc := 0; tc < 256; tc++ {
+			base := []byte{0x29, 0, 0xbc, 0xe0, 0x11, 0x01, 0x09, 0x02}
+			numbered, seq := tc&0x40 != 0, uint8(tc>>2)&15
+			if tc&0x80 != 0 {
+				f := append(append([]byte(nil), base...), 0, byte(tc))
+				r.c01Input("decc", f, seed)
+				expect(f, &cemi.ControlData{Numbered: numbered, SeqNumber: seq, Command: uint8(tc & 3)})
+				continue
+			}
+			for _, b2 := range []byte{0x00, 0x40, 0x81, 0xff} {
+				f := append(append([]byte(nil), base...), 1, byte(tc), b2)
+				r.c01Input("decc", f, seed)
+				expect(f, &cemi.AppData{Numbered: numbered, SeqNumber: seq, Command: cemi.APCI(uint8(tc&3)<<2 | b2>>6), Data: []byte{b2 & 63}})
+			}
+			f := append(append([]byte(nil), base...), 3, byte(tc), byte(g.R.Intn(256)), g.Byte(), g.Byte())
+			r.c01Input("decc", f, seed)
+			expect(f, &cemi.AppData{Numbered: numbered, SeqNumber: seq, Command: cemi.APCI(uint8(tc&3)<<2 | f[10]>>6), Data: []byte{f[10] & 63, f[11], f[12]}})
+		}
 	}
 	// all APCI x seq x numbered x control/data combinations
 	for apci := 0; apci < 16; apci++ {
